@@ -17,6 +17,7 @@
 //     DEPTH d                    getDepth()
 //     F ti qi f0 f1 sumQ         computeNonEdgeForces(qi, theta[ti], {0,0}, 0)
 //     END
+//     G id n x0 y0 ...  theta deg        -> "D i dC0 dC1" per point (TSNE::computeGradient), "E C" (TSNE::evaluateError)
 #include <algorithm>
 #include <cfloat>
 #include <cmath>
@@ -33,10 +34,20 @@
 #include <vector>
 #include <tapkee/defines/types.hpp>
 
+#include <cstring>
+#include <limits>
+#include <queue>
+#include <time.h>
+#include <tapkee/defines/random.hpp>
+#include <tapkee/utils/logging.hpp>
+#include <tapkee/utils/time.hpp>
+
 #define private public
 #define class struct
 #include <tapkee/external/barnes_hut_sne/quadtree.hpp>
 #undef class
+// tsne.hpp: TSNE::computeGradient / evaluateError are private; vptree.hpp has templates, so only `private` is redefined
+#include <tapkee/external/barnes_hut_sne/tsne.hpp>
 #undef private
 
 using tsne::QuadTree;
@@ -114,7 +125,51 @@ int main()
     {
         std::istringstream is(line);
         std::string tag, id, mode, tok;
-        if (!(is >> tag) || tag != "K")
+        if (!(is >> tag))
+            continue;
+        if (tag == "G")
+        {
+            // G id n x0 y0 ... theta deg : tsne.hpp's own use of the tree.  TSNE::computeGradient and
+            // TSNE::evaluateError on the map Y with a sparse P in which row i has the `deg` entries
+            // (i+1) % n, ..., (i+deg) % n, each of value 2^-6.
+            int n = 0, deg = 0;
+            is >> id >> n;
+            std::vector<double> Y(2 * (size_t)std::max(n, 0) + 2, 0.0);
+            for (int i = 0; i < 2 * n; i++)
+            {
+                is >> tok;
+                Y[i] = parse_num(tok);
+            }
+            is >> tok;
+            double theta = parse_num(tok);
+            is >> deg;
+            std::vector<int> row_P(n + 1, 0), col_P;
+            std::vector<double> val_P;
+            for (int i = 0; i < n; i++)
+            {
+                for (int k = 1; k <= deg; k++)
+                {
+                    col_P.push_back((i + k) % n);
+                    val_P.push_back(0.015625);
+                }
+                row_P[i + 1] = (int)col_P.size();
+            }
+            col_P.push_back(0);
+            val_P.push_back(0.0);
+            printf("C %s\n", id.c_str());
+            fflush(stdout);
+            tsne::TSNE ts;
+            std::vector<double> dC(2 * (size_t)n + 2, 0.0);
+            ts.computeGradient(NULL, row_P.data(), col_P.data(), val_P.data(), Y.data(), n, 2, dC.data(), theta);
+            for (int i = 0; i < n; i++)
+                printf("D %d %a %a\n", i, dC[2 * i], dC[2 * i + 1]);
+            double C = ts.evaluateError(row_P.data(), col_P.data(), val_P.data(), Y.data(), n, theta);
+            printf("E %a\n", C);
+            printf("END\n");
+            fflush(stdout);
+            continue;
+        }
+        if (tag != "K")
             continue;
         is >> id >> mode;
         double root[4];
